@@ -1033,6 +1033,25 @@ func (c *Chunker) splitBySentences(text string, section *Section, chunkIndex *in
 	chunks := make([]*Chunk, 0)
 	sentences := splitIntoSentences(text)
 
+	// A single sentence can still exceed the hard limit (text without sentence
+	// punctuation): cut it at word boundaries
+	if c.config.MaxChunkSize > 0 {
+		calc := NewSizeCalculatorWithConfig(SizeConfig{
+			Target:        SizeLimit{Value: c.config.MaxChunkSize, Unit: SizeUnitCharacters, Type: LimitTypeSoft},
+			Max:           SizeLimit{Value: c.config.MaxChunkSize, Unit: SizeUnitCharacters, Type: LimitTypeHard},
+			TokensPerChar: 0.25,
+		})
+		var parts []string
+		for _, sentence := range sentences {
+			if len(sentence) > c.config.MaxChunkSize {
+				parts = append(parts, calc.SplitToSize(sentence, nil)...)
+			} else {
+				parts = append(parts, sentence)
+			}
+		}
+		sentences = parts
+	}
+
 	var currentText strings.Builder
 	for _, sentence := range sentences {
 		addedLen := len(sentence)
